@@ -1,4 +1,4 @@
-import GlmVerif.Core.Poly
+import GlmVerif.Core.Guard
 /-!
 Specification side, Mathlib-free.  A `Family` is a set of traced units that share
 one textbook definition, written as a function from the unit's shape keys to an
@@ -45,6 +45,13 @@ structure Family where
   cert : List Nat → Nat → List E := fun _ _ => []
   /-- `post` is the identity (outputs compared directly) -/
   isPlain : Bool := true
+  /-- tree mode: the unit may branch; output `j` is compared, decision by decision, with `specT ks j`
+      (conditions up to polynomial equality of their operands, leaves by `kind`); `post` is not used -/
+  treeMode : Bool := false
+  specT : List Nat → Nat → Tree := fun _ _ => .leaf (.lit 0 1)
+  /-- additionally require `Tree.guarded` of every raw output: each `sqrt`/`acos`/`asin`/`log` the code
+      evaluates has its argument in range because of the decisions taken before (no hidden NaN) -/
+  guard : Bool := false
   deriving Inhabited
 
 /-- the expression of output `i` of a decision-free unit -/
@@ -56,10 +63,8 @@ def Unit.outE (u : Unit) (i : Nat) : E :=
 def Family.unitName (f : Family) (ks : List Nat) : String :=
   ks.foldl (fun s k => s ++ "_" ++ toString k) f.unit
 
-/-- the decidable check of one component -/
-def Family.compOK (f : Family) (ks : List Nat) (o : Nat → E) (j : Nat) : Bool :=
-  let e := f.post ks o j
-  let s := f.spec ks j
+/-- the decidable comparison of one expression with its specification -/
+def Family.leafOK (f : Family) (ks : List Nat) (j : Nat) (e s : E) : Bool :=
   match f.kind with
   | .poly => polyEq e s
   | .syn => e == s
@@ -68,8 +73,17 @@ def Family.compOK (f : Family) (ks : List Nat) (o : Nat → E) (j : Nat) : Bool 
   | .fracMod => fracEqMod (f.hyps ks) (f.cert ks j) e s && e.divisors.all (divisorAllowed (f.allowed ks))
       && s.divisors.all (divisorAllowed (f.allowed ks))
 
+/-- the decidable check of one component -/
+def Family.compOK (f : Family) (ks : List Nat) (o : Nat → E) (j : Nat) : Bool :=
+  f.leafOK ks j (f.post ks o j) (f.spec ks j)
+
 /-- the decidable table check for one unit of a family -/
 def Family.okAt (f : Family) (look : String → List Nat → Unit) (ks : List Nat) : Bool :=
+  (!f.guard || (List.range (f.nRaw ks)).all fun j => ((look f.unit ks).out j).guarded []) &&
+  if f.treeMode then
+    (look f.unit ks).outs.length == f.nRaw ks &&
+      (List.range (f.nOut ks)).all fun j => treeOK (f.leafOK ks j) ((look f.unit ks).out j) (f.specT ks j)
+  else
   match (look f.unit ks).leafOuts with
   | none => false
   | some l => l.length == f.nRaw ks && (List.range (f.nOut ks)).all (f.compOK ks (fun i => l.getD i (.lit 0 1)))
